@@ -29,7 +29,27 @@ type Result struct {
 	Vals string
 }
 
+// SetBase makes the raw renter build on the given state of a contract instead of asking the host
+// (which cannot be asked while another RPC of the harness holds the contract locked); nil clears it.
+func (s *Sess) SetBase(cid int, st *rhp4.RevisionState) {
+	if s.base == nil {
+		s.base = map[int]*rhp4.RevisionState{}
+	}
+	if st == nil {
+		delete(s.base, cid)
+	} else {
+		s.base[cid] = st
+	}
+}
+
 func (s *Sess) honestKey(cid int) (int, rhp4.RevisionState, bool) {
+	if b, ok := s.base[cid]; ok {
+		k := KeyID(b.Revision.RenterPublicKey)
+		if k == 0 {
+			k = RenterKeyID
+		}
+		return k, *b, true
+	}
 	st, err := s.R.HostState(s.CID(cid))
 	if err != nil {
 		return RenterKeyID, rhp4.RevisionState{}, false
@@ -424,6 +444,9 @@ type ReplArgs struct {
 	// Between runs after the host's quote has been read and before the renter answers it (an
 	// operation on another stream in the middle of the RPC)
 	Between func()
+	// Base, when set, supplies the revision the honest renter builds on, evaluated after the quote
+	// has been read (another RPC of the same renter completed while this one was waiting)
+	Base func() types.V2FileContract
 }
 
 func (s *Sess) Replenish(a ReplArgs) Result {
@@ -466,6 +489,9 @@ func (s *Sess) Replenish(a ReplArgs) Result {
 		res.Vals = curs(amts)
 		if a.Between != nil {
 			a.Between()
+		}
+		if a.Base != nil {
+			st.Revision = a.Base()
 		}
 		var total types.Currency
 		tooBig := false
